@@ -226,3 +226,30 @@ def effect_flags():
     return [('StateRead', 'KeyRange', 'KeyRange', 0), ('StateRead', 'KeyRangeExtern', 'KeyRangeExtern', 1), ('Access', 'ThisAddress', 'ThisAddress', 2),
             ('Access', 'ThisContractAddress', 'ThisContractAddress', 3), ('StateRead', 'PostKeyRange', 'PostKeyRange', 4),
             ('StateRead', 'PostKeyRangeExtern', 'PostKeyRangeExtern', 5)]
+
+
+def gen_kani_table(workdir):
+    """writes src/gen_table.rs of the Kani crate kani/asm_k1 from the YAML reading"""
+    groups = read_spec()
+    flags = {(g, o): 1 << bit for g, o, _, bit in effect_flags()}
+    L = ['// GENERATED from crates/asm-spec/asm.yml by /verif/tools/asm_yaml.py', 'use essential_asm as asm;',
+         'pub const ALL_FLAGS: u8 = %d;' % sum(flags.values()),
+         '/// (effect flag, number of immediate bytes) of the op an opcode byte denotes; None = not a valid opcode',
+         'pub fn yaml_op(b: u8) -> Option<(u8, u8)> { match b {']
+    ix = 0
+    idx_arms, op_arms = [], []
+    for g, ops in groups:
+        for o in ops:
+            L.append('    %d => Some((%d, %d)),' % (o['opcode'], flags.get((g, o['name']), 0), o['nargs']))
+            idx_arms.append('    %d => %d,' % (o['opcode'], ix))
+            op_arms.append('    asm::Op::%s(asm::%s::%s%s) => Some(%d),' % (g, g, o['name'], '(_)' if o['nargs'] else '', ix))
+            ix += 1
+    L.append('    _ => None } }')
+    L.append('pub fn yaml_byte_index(b: u8) -> usize { match b {')
+    L += idx_arms
+    L.append('    _ => usize::MAX } }')
+    L.append('#[allow(unreachable_patterns)] pub fn yaml_index(op: &asm::Op) -> Option<usize> { match *op {')
+    L += op_arms
+    L.append('    _ => None } }')
+    with open(os.path.join(workdir, 'src', 'gen_table.rs'), 'w') as f:
+        f.write('\n'.join(L) + '\n')
